@@ -3,7 +3,7 @@
 import json, os, subprocess, sys
 HERE = os.path.dirname(os.path.dirname(os.path.abspath(__file__)))
 sys.path.insert(0, HERE)
-from tools.manifest_table import CHECKS, NOT_APPLICABLE, ENGINES, NOTES
+from tools.manifest_table import CHECKS, NOT_APPLICABLE, ENGINES, NOTES, ADDENDA
 
 def main():
     checks = []
@@ -16,7 +16,7 @@ def main():
             "evidence_file": "/verif/evidence/%s.json" % pid,
             "replay_cmd_template": "./check %s --replay {path}" % pid,
             "engine": c["engine"],
-            "level_claimed": {"category": c["level"], "text": c["text"], "design_ref": c.get("design_ref", "DESIGN.md section 5, " + pid)},
+            "level_claimed": {"category": c["level"], "text": c["text"] + (" " + ADDENDA[pid] if pid in ADDENDA else ""), "design_ref": c.get("design_ref", "DESIGN.md section 5, " + pid)},
             "level_note": c["note"],
             "technique": c["technique"],
         })
